@@ -186,6 +186,33 @@ uint64_t univ_syn_enumerate(int scope, syn_cb cb, void *ctx)
       d.lv[1].type = HWLOC_OBJ_CORE; d.lv[1].arity = 2; d.lv[2].type = HWLOC_OBJ_PU; d.lv[2].arity = 2; d.lv[2].indexes = PUIDX[i];
       syn_emit(&g, &d);
     }
+    /* every ordered selection of 1..4 of the four level types as an interleaving, on a 4-level description */
+    {
+      static const char *TN[4] = { "package", "numa", "core", "pu" };
+      static char specs[64][40]; int ns = 0;
+      for (int k = 1; k <= 4; k++) {
+        int idx[4];
+        for (int code = 0; code < 256; code++) {
+          int ok = 1; for (int q = 0; q < k; q++) { idx[q] = (code >> (2 * q)) & 3; for (int r = 0; r < q; r++) if (idx[r] == idx[q]) ok = 0; }
+          if (!ok || (code >> (2 * k))) continue;
+          char *w = specs[ns]; w[0] = 0; for (int q = 0; q < k; q++) { if (q) strcat(w, ":"); strcat(w, TN[idx[q]]); }
+          memset(&d, 0, sizeof(d)); d.nlevels = 4;
+          d.lv[0].type = HWLOC_OBJ_PACKAGE; d.lv[0].arity = 2; d.lv[1].type = HWLOC_OBJ_NUMANODE; d.lv[1].arity = 2; d.lv[2].type = HWLOC_OBJ_CORE; d.lv[2].arity = 2;
+          d.lv[3].type = HWLOC_OBJ_PU; d.lv[3].arity = 2; d.lv[3].indexes = specs[ns];
+          syn_emit(&g, &d); ns++;
+        }
+      }
+    }
+    {
+      /* numeric interleaving on the same shape */
+      static const char *NUM[] = { "8*2:1*8", "1*2:2*8", "4*2:2*2:8*2:1*2", "2*8:1*2", "4*4:1*4", "8*2:4*2:2*2:1*2", "2*2:8*2" /* incomplete: 4 positions missing and not the smallest loop */ };
+      for (unsigned i = 0; i < sizeof(NUM) / sizeof(NUM[0]); i++) {
+        memset(&d, 0, sizeof(d)); d.nlevels = 4;
+        d.lv[0].type = HWLOC_OBJ_PACKAGE; d.lv[0].arity = 2; d.lv[1].type = HWLOC_OBJ_NUMANODE; d.lv[1].arity = 2; d.lv[2].type = HWLOC_OBJ_CORE; d.lv[2].arity = 2;
+        d.lv[3].type = HWLOC_OBJ_PU; d.lv[3].arity = 2; d.lv[3].indexes = NUM[i];
+        syn_emit(&g, &d);
+      }
+    }
     for (unsigned i = 0; i < sizeof(NIDX) / sizeof(NIDX[0]); i++) for (int mem = 0; mem < 2; mem++) {
       memset(&d, 0, sizeof(d)); d.nlevels = 3;
       d.lv[0].type = HWLOC_OBJ_NUMANODE; d.lv[0].arity = 2; d.lv[0].indexes = NIDX[i]; if (mem) d.lv[0].memory = 123456789ULL;
